@@ -19,7 +19,7 @@ RULE = (
 )
 TIERS = {"quick": {"shards": 8, "n": 2500, "budget_s": 200}, "thorough": {"shards": 16, "n": 20000, "budget_s": 2700}}
 FLOOR = {"quick": 1000, "thorough": 30000}
-REQUIRED_LABELS = {"quick": ["src:docstring", "src:function-handshaped", "src:emitted", "src:text", "star-args"], "thorough": []}
+REQUIRED_LABELS = {"quick": ["class-merge", "explicit-function_type", "src:docstring", "src:function-handshaped", "src:emitted", "src:text", "star-args"], "thorough": []}
 ASSUMPTIONS = ["on ill-formed text (not derivable from the section grammar) the clauses 'name non-empty' and 'typ parses' are relaxed (P30); all other shape clauses stay"]
 TOK = [":param ", ":type ", ":return: ", ":rtype: ", ":cvar ", "Args:\n", "Returns:\n", "Raises:\n", "Kwargs:\n", "Parameters\n----------\n", "Returns\n-------\n", "alpha", "beta_x", "*args", "**kwargs", "(int)", " (str, optional)", "```int```", "```", ":", "\n", "  ", "    ", "Defaults to 5", "Defaults to ", ".", " or ", "int", "Optional[str]", " : ", "the value"]
 
@@ -88,14 +88,18 @@ def shape(ir, allow_empty_name=False, allow_bad_typ=False, allow_none_key=False)
 # ---------------------------------------------------------------------------------------------- case kinds
 @st.composite
 def case_strategy(draw):
-    kind = draw(st.sampled_from(["docstring", "docstring", "function", "function", "emitted", "emitted", "text"]))
+    kind = draw(st.sampled_from(["docstring", "docstring", "function", "function", "emitted", "emitted", "text", "class-merge"]))
     if kind == "docstring":
         d = draw(gen_doc.docstr(allow_star=True, multiline=True))
         return {"kind": "docstring", "text": d["text"], "style": d["style"], "indent": d["indent"], "footer": d["footer"], "star": any(p["name"].startswith("*") for p in d["params"]), "n": len(d["params"]), "rtyp": d["rtyp"]}
     if kind == "function":
         feat = []
         lines = draw(gen_prog.funcdef(feat=feat))
-        return {"kind": "function", "src": "\n".join(lines) + "\n", "feat": sorted(set(feat))}
+        return {"kind": "function", "src": "\n".join(lines) + "\n", "feat": sorted(set(feat)), "function_type": draw(st.sampled_from([None, None, "static", "self", "cls"]))}
+    if kind == "class-merge":
+        feat = []
+        lines = draw(gen_prog.classdef(feat=feat))
+        return {"kind": "class-merge", "src": "\n".join(lines) + "\n", "feat": sorted(set(feat)), "pick": draw(st.integers(0, 3))}
     if kind == "emitted":
         fmt = draw(st.sampled_from(["class", "pydantic", "function", "argparse", "json", "sqlalchemy", "sqlalchemy_table", "sqlalchemy_hybrid"]))
         profile = "json" if fmt == "json" else ("common" if fmt.startswith("sql") or fmt == "argparse" else "signature")
@@ -119,7 +123,7 @@ def oracle(case):
     r = Result()
     cdd = hops.load()["cdd"]
     kind = case["kind"]
-    r.label("src:" + ("function-handshaped" if kind == "function" else kind))
+    r.label("src:" + ("function-handshaped" if kind in ("function", "class-merge") else kind))
     try:
         with core.quiet():
             if kind == "docstring":
@@ -130,7 +134,13 @@ def oracle(case):
                 well_formed = False
             elif kind == "function":
                 node = ast.parse(case["src"]).body[0]
-                ir = cdd.function.parse.function(node)
+                # an explicit function_type must not change which parameters are found (only the recorded `type`)
+                ir = cdd.function.parse.function(node, **({"function_type": case["function_type"]} if case.get("function_type") else {}))
+            elif kind == "class-merge":
+                cnode = ast.parse(case["src"]).body[0]
+                methods = [b for b in cnode.body if isinstance(b, (ast.FunctionDef,))]
+                inner = methods[case["pick"] % len(methods)]
+                ir = cdd.class_.parse.class_(cnode, merge_inner_function=inner.name)
             else:
                 fmt = case["fmt"]
                 x = gen_ir.to_ir(case["ir"])
@@ -161,10 +171,20 @@ def oracle(case):
             errs = [e for e in errs if not e.startswith("name-star")]
         if case["star"]:
             r.label("star-args")
-    elif kind == "function":
+    elif kind in ("function", "class-merge"):
         errs = shape(ir)
-        node = ast.parse(case["src"]).body[0]
+        if kind == "function":
+            node = ast.parse(case["src"]).body[0]
+        else:
+            cnode = ast.parse(case["src"]).body[0]
+            methods = [b for b in cnode.body if isinstance(b, (ast.FunctionDef,))]
+            node = methods[case["pick"] % len(methods)]
+            r.label("class-merge")
+        if case.get("function_type"):
+            r.label("explicit-function_type")
         strict, loose = sig_names(node)
+        if strict and strict[0] in ("self", "cls") and kind == "class-merge":
+            strict = strict[1:]
         got = list(ir["params"])
         for n in strict:
             if n in ("self", "cls"):
